@@ -50,11 +50,12 @@ impl ActPackage for BlockPackage {
 
 impl ActPackageFn for BlockPackage {
     fn execute(&self, ctx: &Context) -> Result<Option<Vars>> {
-        let mut option = ctx.task().options();
+        let option = ctx.task().options();
         let mut acts = self.acts.clone();
         for act in acts.iter_mut() {
             // append block options to each child act
-            act.options.append(&mut option);
+            // (`append` empties its argument: every act gets a copy of its own)
+            act.options.append(&mut option.clone());
         }
         ctx.build_acts(&acts, self.mode == RunningMode::Sequence)?;
         Ok(None)
